@@ -7,4 +7,6 @@ INVARIANT SkeletonIsMVUpd
 INVARIANT IndInv
 INVARIANT PerKeySinceFirst
 PROPERTY KeysMonotone
+INVARIANT ProofInvariant
+PROPERTY ProofIsAboutThisStep
 CHECK_DEADLOCK FALSE
